@@ -147,6 +147,18 @@ pub fn gen_grammar_text(u: &mut Un, names: &mut Names) -> String {
     s
 }
 
+
+/// text of a group header: a marker; with the text grammar a title line, a body line and a
+/// second paragraph
+fn group_text(u: &mut Un, names: &mut Names, cfg: &BroadCfg) -> DocSpec {
+    let m = marker(names, "Grp");
+    if cfg.help == HelpGen::Grammar && u.chance(128) {
+        DocSpec::plain(format!("{} title\nbody of the group\n\nsecond paragraph of {}", m, m))
+    } else {
+        DocSpec::plain(m)
+    }
+}
+
 fn help_for(u: &mut Un, names: &mut Names, cfg: &BroadCfg) -> Option<DocSpec> {
     match cfg.help {
         HelpGen::None => None,
@@ -277,7 +289,7 @@ fn decorate(n: Node, u: &mut Un, names: &mut Names, cfg: &BroadCfg) -> Node {
         0 => n,
         1 => Node::Hide(n.b()),
         2 => Node::HideUsage(n.b()),
-        3 => Node::GroupHelp(n.b(), DocSpec::plain(marker(names, "Grp"))),
+        3 => Node::GroupHelp(n.b(), group_text(u, names, cfg)),
         4 => Node::Guard {
             n: n.b(),
             pred: Pred::NotEq("bad".into()),
@@ -456,7 +468,7 @@ pub fn gen_broad_field(u: &mut Un, names: &mut Names, cfg: &BroadCfg) -> Node {
                     },
                 }
             } else if cfg.decor && u.bool() {
-                Node::GroupHelp(g.b(), DocSpec::plain(marker(names, "Grp")))
+                Node::GroupHelp(g.b(), group_text(u, names, cfg))
             } else {
                 g
             }
@@ -580,7 +592,7 @@ pub fn gen_broad_level(u: &mut Un, names: &mut Names, cfg: &BroadCfg, depth: usi
             for p in gen_pos_suffix(u, names, &cc) {
                 let p = add_help(p, u, names, cfg);
                 tail_nodes.push(if cfg.decor && u.chance(40) {
-                    Node::GroupHelp(p.b(), DocSpec::plain(marker(names, "Grp")))
+                    Node::GroupHelp(p.b(), group_text(u, names, cfg))
                 } else {
                     p
                 });
